@@ -136,6 +136,8 @@ theorem glue_ops_listed : Dec.Gen.Api3.covered.map (·.1) =
      "from_i32", "from_u32", "from_i64", "from_u64", "from_u128", "default", "copy", "copy_sign", "is_canonical",
      "sum", "sum_ref", "product", "product_ref",
      -- the four text entry points, over the string routine as a parameter: `C14GenTextGlue`
-     "convert_from_decimal_character", "from_str", "from_string_ref", "nan"] := by decide +kernel
+     "convert_from_decimal_character", "from_str", "from_string_ref", "nan",
+     -- the four formatter impls, over the formatter as a parameter: `C14GenTextGlue`
+     "display", "debug", "upperexp", "lowerexp"] := by decide +kernel
 
 end Dec.C15GenGlue
